@@ -64,6 +64,22 @@ def fresh_name(prefix):
     return f"{prefix}!{next(_fresh)}"
 
 
+def contains_quantifier(e, _seen=None):
+    seen = set() if _seen is None else _seen
+    stack = [e]
+    while stack:
+        t = stack.pop()
+        tid = t.get_id()
+        if tid in seen:
+            continue
+        seen.add(tid)
+        if z3.is_quantifier(t):
+            return True
+        if z3.is_app(t):
+            stack.extend(t.children())
+    return False
+
+
 class Path:
     """State of one explored path."""
 
@@ -72,6 +88,7 @@ class Path:
         self.decisions = list(decisions)
         self.pos = 0
         self.pc: list = []  # assumptions (z3 Bool)
+        self.pc_qf: list = []  # quantifier-free part (used for feasibility: a weaker pc is a sound over-approximation)
         self.closed = True
         self.pid = pid
         self.events: list = []  # ghost event trace (persist calls, ...)
@@ -89,12 +106,19 @@ class Path:
             return
         if z3.is_false(cond):
             raise PathEnd()
+        self._add(cond)
+
+    def _add(self, cond):
         self.pc.append(cond)
+        if not contains_quantifier(cond):
+            self.pc_qf.append(cond)
 
     def feasible(self, extra=None):
         s = self.explorer.feas_solver()
-        s.add(*self.pc)
+        s.add(*self.pc_qf)
         if extra is not None:
+            if contains_quantifier(extra):
+                return True
             s.add(extra)
         r = s.check()
         self.explorer.stats["feas_calls"] += 1
@@ -128,7 +152,7 @@ class Path:
             self.decisions.append(choice)
             self.pos += 1
         self.trace.append((label, choice))
-        self.pc.append(cond if choice else z3.Not(cond))
+        self._add(cond if choice else z3.Not(cond))
         return choice
 
     def choose(self, n, label=""):
@@ -163,7 +187,7 @@ class Path:
 class Explorer:
     """Drives exploration of all paths of one entry point."""
 
-    def __init__(self, max_paths=4000, feas_timeout_ms=2000):
+    def __init__(self, max_paths=4000, feas_timeout_ms=500):
         self.work: list = [[]]
         self.obligations: list[Obligation] = []
         self.stats = {"paths": 0, "feas_calls": 0, "cut_paths": 0, "ended": {}}
